@@ -405,8 +405,10 @@ class Ref(object):
       # specified: while they run it may or may not count as occupied
       self.inflight = 1
       try:
-        self.finish(outs, exp_outs, events, in_port, "C18", "buffer/emit",
-                    "%s with buffer %d" % (what, buffer_id))
+        # what a buffered packet emits is C18's business (that packet,
+        # through the given actions) and C12's (the actions and port rules)
+        self.finish(outs, exp_outs, events, in_port, ("C18", "C12"),
+                    "buffer/emit", "%s with buffer %d" % (what, buffer_id))
       finally:
         self.inflight = 0
       self.sim.probes["buffer_used"] += 1
@@ -771,11 +773,12 @@ class Ref(object):
     except F.Unspecified as u:
       sim.probes["unspecified_case"] += 1
     except Deviation as d:
-      if d.tag == self.scope:
+      tags = d.tag if isinstance(d.tag, tuple) else (d.tag,)
+      if self.scope in tags:
         res.update(verdict="violation", vclass=d.vclass, detail=d.detail)
       else:
-        sim.probes["oos_%s_%s" % (d.tag, d.vclass)] += 1
-        self.oos = (d.tag, d.vclass, d.detail)
+        sim.probes["oos_%s_%s" % (tags[0], d.vclass)] += 1
+        self.oos = (tags[0], d.vclass, d.detail)
     except S.SimAbort as a:
       if a.vclass == "harness":
         res.update(verdict="error", detail=a.detail)
